@@ -47,14 +47,27 @@ type seg struct {
 	Ops []opSpec `json:"ops"`
 }
 
+// hammerSpec: before the recorded history, Removers goroutines loop on Remove(K) and one loops on Remove(K); Set(K),
+// Iter iterations each, released together; their results are not recorded (the recorded history starts with Remove(K),
+// after which the cache is empty whatever the interleaving was - theorem c05_hammer_collapses).
+type hammerSpec struct {
+	K        int   `json:"k"`
+	Removers int   `json:"removers"`
+	Iter     int   `json:"iter"`
+	Now      int64 `json:"t"`
+}
+
 type histSpec struct {
-	Kind     string `json:"kind"` // mem | rds
-	Class    string `json:"class"`
-	Size     int64  `json:"size"`
-	Dttl     int64  `json:"dttl"`
-	NKeys    int    `json:"nkeys"`
-	Segs     []seg  `json:"segs"`
-	ProbeNow int64  `json:"probe_now"`
+	Kind       string      `json:"kind"` // mem | rds | rdsh
+	Class      string      `json:"class"`
+	Size       int64       `json:"size"`
+	Dttl       int64       `json:"dttl"`
+	NKeys      int         `json:"nkeys"`
+	Segs       []seg       `json:"segs"`
+	ProbeNow   int64       `json:"probe_now"`
+	Hammer     *hammerSpec `json:"hammer,omitempty"`
+	Fillers    int         `json:"fillers,omitempty"`    // foreign keys put on the shared fake redis before the history
+	Bystanders int         `json:"bystanders,omitempty"` // bystander caches (own prefix each) with NKeys keys (default: one cache, one key)
 }
 
 var keyNames = []string{"k0", "k1", "", "a b", "k4", "ключ", "k6", "k7"}
@@ -258,9 +271,43 @@ func flatten(segs []segObs, orders [][]int, rds bool) (steps []obs) {
 	return
 }
 
+// hammer: callers racing on one key of a fresh cache, released from a spin barrier; returns at quiescence.
+func hammer(c cache.TTLCache, hs *hammerSpec) {
+	setClock(hs.Now)
+	ctx := context.Background()
+	key := keyNames[hs.K]
+	var ready, goFlag int32
+	var wg sync.WaitGroup
+	n := hs.Removers + 1
+	for g := 0; g < n; g++ {
+		wg.Add(1)
+		go func(g int) {
+			defer wg.Done()
+			defer func() { recover() }()
+			atomic.AddInt32(&ready, 1)
+			for atomic.LoadInt32(&goFlag) == 0 {
+			}
+			for i := 0; i < hs.Iter; i++ {
+				_ = c.Remove(ctx, key)
+				if g == 0 {
+					_ = c.Set(ctx, key, encVal(int64(i%90+1)))
+				}
+			}
+		}(g)
+	}
+	for atomic.LoadInt32(&ready) < int32(n) {
+		runtime.Gosched()
+	}
+	atomic.StoreInt32(&goFlag, 1)
+	wg.Wait()
+}
+
 // runMem executes the history on the real in-memory cache; racing segments are reported in a witness order.
 func runMem(h *histSpec) (steps, probe []obs, witnessMissing bool) {
 	c := cache.NewTTLMemCache(int(h.Size), h.Dttl)
+	if h.Hammer != nil {
+		hammer(c, h.Hammer)
+	}
 	var segs []segObs
 	hasPar := false
 	for _, s := range h.Segs {
@@ -336,7 +383,7 @@ func runRdsOnly(e *vh.Env, h *histSpec) (steps []obs, witnessMissing bool) {
 	f, cl := newFakeRedis(getClock)
 	defer cl.Close()
 	r := cache.NewTTLRdsCache(cl, rdsPrefix, h.Dttl)
-	bys := newBystander(f, cl, h)
+	bys := newBystanders(f, cl, h)
 	defer bys.finish(e, h)
 	var segs []segObs
 	hasPar := false
@@ -391,28 +438,58 @@ func runRdsOnly(e *vh.Env, h *histSpec) (steps []obs, witnessMissing bool) {
 const byPrefix = "q:"
 
 type bystander struct {
-	c     cache.TTLCache
-	f     *fakeRedis
-	steps []obs
+	c      cache.TTLCache
+	f      *fakeRedis
+	prefix string
+	nkeys  int
+	steps  []obs
 }
 
-func newBystander(f *fakeRedis, cl *redis.Client, h *histSpec) *bystander {
-	b := &bystander{c: cache.NewTTLRdsCache(cl, byPrefix, h.Dttl), f: f}
+type bystanders struct {
+	f       *fakeRedis
+	bs      []*bystander
+	fillers int
+}
+
+func fillerKey(i int) string { return fmt.Sprintf("f%d:x%d", i%7, i) }
+
+// newBystanders puts the foreign population on the shared fake: h.Fillers raw keys and the bystander caches' keys
+func newBystanders(f *fakeRedis, cl *redis.Client, h *histSpec) *bystanders {
 	t0 := int64(0)
 	if len(h.Segs) > 0 && len(h.Segs[0].Ops) > 0 {
 		t0 = h.Segs[0].Ops[0].Now
 	}
-	b.do(opSpec{Now: t0, Kind: "S", K: 0, V: 99, HasTTL: true, TTL: 1000000})
-	return b
+	f.mu.Lock()
+	for i := 0; i < h.Fillers; i++ {
+		f.data[fillerKey(i)] = &fent{val: "x"}
+	}
+	f.mu.Unlock()
+	r := &bystanders{f: f, fillers: h.Fillers}
+	n, nk := 1, 1
+	if h.Bystanders > 0 {
+		n, nk = h.Bystanders, h.NKeys
+	}
+	for i := 0; i < n; i++ {
+		prefix := byPrefix
+		if i > 0 {
+			prefix = fmt.Sprintf("q%d:", i)
+		}
+		b := &bystander{c: cache.NewTTLRdsCache(cl, prefix, h.Dttl), f: f, prefix: prefix, nkeys: nk}
+		for k := 0; k < nk; k++ {
+			b.do(opSpec{Now: t0, Kind: "S", K: k, V: int64(90 + k), HasTTL: true, TTL: 1000000})
+		}
+		r.bs = append(r.bs, b)
+	}
+	return r
 }
 func (b *bystander) do(o opSpec) {
 	setClock(o.Now)
 	b.f.take()
 	r := execOp(b.c, o)
-	b.steps = append(b.steps, obs{op: o, rds: r, cmds: coqCmdsP(b.f.take(), byPrefix)})
+	b.steps = append(b.steps, obs{op: o, rds: r, cmds: coqCmdsP(b.f.take(), b.prefix)})
 }
-func (b *bystander) finish(e *vh.Env, h *histSpec) {
-	tEnd, cleared := b.steps[0].op.Now, false
+func (r *bystanders) finish(e *vh.Env, h *histSpec) {
+	tEnd, cleared := r.bs[0].steps[0].op.Now, false
 	for _, s := range h.Segs {
 		for _, o := range s.Ops {
 			if o.Now > tEnd {
@@ -423,15 +500,31 @@ func (b *bystander) finish(e *vh.Env, h *histSpec) {
 			}
 		}
 	}
-	b.do(opSpec{Now: tEnd, Kind: "G", K: 0})
-	lines := []string{}
-	for _, s := range b.steps {
-		lines = append(lines, fmt.Sprintf("%s -> rds %s %v", descOp(s.op), descRes(s.rds), s.cmds))
+	r.f.mu.Lock()
+	lost := 0
+	for i := 0; i < r.fillers; i++ {
+		if r.f.data[fillerKey(i)] == nil {
+			lost++
+		}
 	}
+	r.f.mu.Unlock()
 	rp, _ := json.Marshal(h)
-	e.Emit(vh.Case{Coq: fmt.Sprintf("CRdsHist 64 %s %s", z(h.Dttl), coqRdsOnlySteps(b.steps)), Class: "rds-bystander", Nontrivial: cleared, Replay: string(rp),
-		Desc: map[string]interface{}{"backend": "redis", "history": lines,
-			"note": "second cache (prefix q:) on the same redis; between its two calls the cache under test (prefix p:) ran the history of the neighbouring case", "other_cache_cleared": cleared}})
+	for bi, b := range r.bs {
+		for k := 0; k < b.nkeys; k++ {
+			b.do(opSpec{Now: tEnd, Kind: "G", K: k})
+		}
+		if bi == 0 && lost > 0 {
+			// a raw foreign key vanished: reported as a failed read of the first bystander
+			b.steps = append(b.steps, obs{op: opSpec{Now: tEnd, Kind: "G", K: 0}, rds: result{rFail, 97}})
+		}
+		lines := []string{}
+		for _, s := range b.steps {
+			lines = append(lines, fmt.Sprintf("%s -> rds %s %v", descOp(s.op), descRes(s.rds), s.cmds))
+		}
+		e.Emit(vh.Case{Coq: fmt.Sprintf("CRdsHist 64 %s %s", z(h.Dttl), coqRdsOnlySteps(b.steps)), Class: "rds-bystander", Nontrivial: cleared, Replay: string(rp),
+			Desc: map[string]interface{}{"backend": "redis", "history": lines, "prefix": b.prefix, "foreign_raw_keys": r.fillers, "foreign_raw_keys_lost": lost,
+				"note": "another cache (own prefix) on the same redis; between its writes and its reads the cache under test (prefix p:) ran the history of the neighbouring case", "other_cache_cleared": cleared}})
+	}
 }
 
 // runRds executes the history on both back-ends in lock step.
@@ -440,7 +533,7 @@ func runRds(e *vh.Env, h *histSpec) (steps []obs) {
 	f, cl := newFakeRedis(getClock)
 	defer cl.Close()
 	r := cache.NewTTLRdsCache(cl, rdsPrefix, h.Dttl)
-	by := newBystander(f, cl, h)
+	by := newBystanders(f, cl, h)
 	defer by.finish(e, h)
 	for _, s := range h.Segs {
 		for _, o := range s.Ops {
@@ -538,9 +631,41 @@ func coqCmds(raw [][]interface{}) []string { return coqCmdsP(raw, rdsPrefix) }
 
 func coqCmdsP(raw [][]interface{}, prefix string) []string {
 	out := make([]string, 0, len(raw))
+	// one iteration of the key space = the first SCAN (cursor 0) and its continuations (cursor = what the previous
+	// SCAN answered) down to the answer 0; the model says RScan once.  A continuation with another cursor, or an
+	// iteration abandoned before the answer 0, is something the model never does.
+	scanning, expect := false, uint64(0)
 	for _, a := range raw {
+		name, _ := argStr(a[0])
+		if name == "scan" && len(a) >= 3 {
+			next, hasNext := a[len(a)-1].(scanNext)
+			args := a
+			if hasNext {
+				args = a[:len(a)-1]
+			}
+			cur, _ := argInt(args[1])
+			switch {
+			case !hasNext:
+				out = append(out, "RBad")
+			case scanning && cur != 0 && uint64(cur) == expect:
+				if coqCmd(append([]interface{}{"scan", uint64(0)}, args[2:]...), prefix) != "RScan" {
+					out = append(out, "RBad")
+				}
+			default:
+				if scanning {
+					out = append(out, "RBad") // previous iteration abandoned
+				}
+				out = append(out, coqCmd(args, prefix))
+			}
+			scanning, expect = next != 0, uint64(next)
+			continue
+		}
 		out = append(out, coqCmd(a, prefix))
 	}
+	if scanning {
+		out = append(out, "RBad")
+	}
+	// the DELs of one iteration, in key order
 	for i, c := range out {
 		if c == "RScan" {
 			tail := out[i+1:]
@@ -646,6 +771,11 @@ func coqCmd(a []interface{}, prefix string) string {
 		}
 		return fmt.Sprintf("RExpire %d %s", k, z(n))
 	case "scan":
+		if len(a) == 6 { // an explicit COUNT is a harmless variation
+			if w, _ := argStr(a[4]); w == "count" {
+				a = a[:4]
+			}
+		}
 		if len(a) != 4 {
 			return "RBad"
 		}
@@ -1216,6 +1346,9 @@ func emitIsolated(e *vh.Env, h *histSpec) {
 	}
 	// crashed: report the first racing segment with every racer panicking (what the prefix returned died with the child)
 	var steps []obs
+	if h.Hammer != nil {
+		steps = append(steps, obs{op: opSpec{Now: h.Hammer.Now, Kind: "R", K: h.Hammer.K}, mem: result{rFail, 99}})
+	}
 	for _, s := range h.Segs {
 		if !s.Par {
 			continue
@@ -1232,6 +1365,49 @@ func emitIsolated(e *vh.Env, h *histSpec) {
 	e.Emit(vh.Case{Coq: fmt.Sprintf("CMem %s %s %s []%%Z", z(h.Size), z(h.Dttl), coqMemSteps(steps)), Class: h.Class, Nontrivial: true, Replay: string(rp),
 		Desc: map[string]interface{}{"backend": "memory", "size": h.Size, "default_ttl": h.Dttl,
 			"history": "the process running this history died while goroutines were racing on one key (see crash); only the racing calls are reported", "crash": msg}})
+}
+
+// removeVsReset: callers hammer Remove / Remove+Set on one key of a small fresh cache; at quiescence the recorded
+// history is  Remove(k); Set(k); Set of fewer than `size` other keys; Get(k)  and the probe.  Every linearisation of
+// the hammering leaves the same (empty) cache after Remove(k), so the recorded history is replayed from the empty cache.
+func removeVsReset(e *vh.Env, iter int) *histSpec {
+	size := int64(2 + e.Rnd.Intn(3))
+	h := &histSpec{Kind: "mem", Class: "mem-remove-vs-reset", Size: size, Dttl: []int64{0, 0, 500}[e.Rnd.Intn(3)], NKeys: 6}
+	k := e.Rnd.Intn(h.NKeys)
+	now := int64(100 + e.Rnd.Intn(50))
+	h.Hammer = &hammerSpec{K: k, Removers: 2 + e.Rnd.Intn(3), Iter: iter, Now: now}
+	ops := []opSpec{{Now: now, Kind: "R", K: k}, {Now: now, Kind: "S", K: k, V: 55}}
+	others := int(size) - 1
+	for i, o := 0, 0; o < others; i++ {
+		if i%h.NKeys == k {
+			continue
+		}
+		ops = append(ops, opSpec{Now: now, Kind: "S", K: i % h.NKeys, V: int64(10 + o)})
+		o++
+	}
+	ops = append(ops, opSpec{Now: now, Kind: "G", K: k}, opSpec{Now: now + 1, Kind: "S", K: k, V: 56, Mne: true}, opSpec{Now: now + 1, Kind: "G", K: k})
+	h.Segs = []seg{{Ops: ops}}
+	h.ProbeNow = now + 1
+	return h
+}
+
+// sharedServer: the redis holds many foreign keys (raw keys and three other caches), so that a walk of the key space
+// takes several SCAN pages, some without any key of the cache under test.
+func sharedServerEnum(emit func(*histSpec)) {
+	for _, fillers := range []int{12, 25, 60, 150} {
+		for _, nk := range []int{2, 5} {
+			var ops []opSpec
+			for k := 0; k < nk; k++ {
+				ops = append(ops, opSpec{Now: 20, Kind: "S", K: k, V: int64(k + 1), HasTTL: true, TTL: 50})
+			}
+			ops = append(ops, opSpec{Now: 21, Kind: "C"})
+			for k := 0; k < nk; k++ {
+				ops = append(ops, opSpec{Now: 21, Kind: "G", K: k})
+			}
+			ops = append(ops, opSpec{Now: 22, Kind: "S", K: 0, V: 9, Mne: true, HasTTL: true, TTL: 5}, opSpec{Now: 22, Kind: "G", K: 0})
+			emit(&histSpec{Kind: "rds", Class: "rds-shared", Size: 8, Dttl: 3, NKeys: 6, Segs: []seg{{Ops: ops}}, Fillers: fillers, Bystanders: 3})
+		}
+	}
 }
 
 func main() {
@@ -1293,6 +1469,22 @@ func main() {
 				}
 			}
 		}
+		if want("mem-remove-vs-reset") || strings.HasPrefix(e.Focus, "mem-") {
+			for i := 0; i < e.Scale(8, 40); i++ {
+				emitIsolated(e, removeVsReset(e, e.Scale(6000, 20000)))
+			}
+		}
+		if want("rds-shared") || strings.HasPrefix(e.Focus, "rds-") {
+			sharedServerEnum(emit)
+			pShared := pRdsRestricted
+			pShared.class, pShared.wC, pShared.sizes = "rds-shared", 14, []int64{6, 64}
+			g := &gen{e: e, p: &pShared}
+			for i := 0; i < e.Scale(40, 400)*mult; i++ {
+				h := g.history()
+				h.Kind, h.Fillers, h.Bystanders = "rds", []int{15, 40, 90, 200}[e.Rnd.Intn(4)], 3
+				emit(h)
+			}
+		}
 		if want("rds-race") {
 			for i := 0; i < e.Scale(60, 600)*mult; i++ {
 				emit(rdsRaceHistory(e))
@@ -1321,7 +1513,7 @@ func main() {
 			}
 		}
 		e.Meta["key_names"] = keyNames
-		e.Meta["classes"] = "mem-enum (exhaustive deadline-1/0/+1 x every operation kind x size 0..2), mem-mixed, mem-lru, mem-expiry, mem-odd (out-of-domain ttls / sizes / clocks), mem-race (goroutines racing on one key), rds-enum, rds-restricted, rds-free, rds-race (callers racing on one key of the redis adapter, commands interleaved by the fake), mem-exh (thorough: all 3-step sequences over 16 letters)"
+		e.Meta["classes"] = "mem-enum (exhaustive deadline-1/0/+1 x every operation kind x size 0..2), mem-mixed, mem-lru, mem-expiry, mem-odd (out-of-domain ttls / sizes / clocks), mem-race (goroutines racing on one key), rds-enum, rds-restricted, rds-free, mem-remove-vs-reset (callers hammering Remove / Remove+Set on one key, then a deterministic history at quiescence), rds-shared (redis shared with many foreign keys: SCAN takes several pages, some without own keys), rds-race (callers racing on one key of the redis adapter, commands interleaved by the fake), mem-exh (thorough: all 3-step sequences over 16 letters)"
 	})
 }
 
